@@ -178,6 +178,8 @@ def run_impl(exe, lines, timeout_per_batch=600, per_case_timeout=20, max_failure
     failures = 0
     env = dict(os.environ)
     env['ASAN_OPTIONS'] = 'detect_leaks=0:allocator_may_return_null=1:max_allocation_size_mb=2048:detect_container_overflow=1'
+    if os.environ.get('VERIF_FILL'):
+        env['ASAN_OPTIONS'] += ':max_malloc_fill_size=1048576:malloc_fill_byte=%d' % int(os.environ['VERIF_FILL'])
     env['UBSAN_OPTIONS'] = 'print_stacktrace=0'
     while start < len(lines):
         with tempfile.NamedTemporaryFile('w', suffix='.cases', delete=False, dir=common.BUILD) as f:
